@@ -181,6 +181,8 @@ type fakeMsg struct {
 	// string fields by position in desc.fields (REST binding harnesses)
 	fvals [fakeMaxFields]string
 	fset  [fakeMaxFields]bool
+	// scalar (bool / integer / enum) fields keep their value here, as 64 bits
+	fnum [fakeMaxFields]uint64
 }
 
 const fakeMaxFields = 2
@@ -203,8 +205,21 @@ func (m *fakeMsg) Get(fd protoreflect.FieldDescriptor) protoreflect.Value {
 	if i < 0 {
 		panic("fakeMsg.Get: unknown field")
 	}
-	if fd.Kind() == protoreflect.BytesKind {
+	switch fd.Kind() {
+	case protoreflect.BytesKind:
 		return protoreflect.ValueOfBytes([]byte(m.fvals[i]))
+	case protoreflect.BoolKind:
+		return protoreflect.ValueOfBool(m.fnum[i] != 0)
+	case protoreflect.Int32Kind, protoreflect.Sint32Kind, protoreflect.Sfixed32Kind:
+		return protoreflect.ValueOfInt32(int32(m.fnum[i]))
+	case protoreflect.Int64Kind, protoreflect.Sint64Kind, protoreflect.Sfixed64Kind:
+		return protoreflect.ValueOfInt64(int64(m.fnum[i]))
+	case protoreflect.Uint32Kind, protoreflect.Fixed32Kind:
+		return protoreflect.ValueOfUint32(uint32(m.fnum[i]))
+	case protoreflect.Uint64Kind, protoreflect.Fixed64Kind:
+		return protoreflect.ValueOfUint64(m.fnum[i])
+	case protoreflect.EnumKind:
+		return protoreflect.ValueOfEnum(protoreflect.EnumNumber(int32(m.fnum[i])))
 	}
 	return protoreflect.ValueOfString(m.fvals[i])
 }
@@ -214,9 +229,22 @@ func (m *fakeMsg) Set(fd protoreflect.FieldDescriptor, v protoreflect.Value) {
 	if i < 0 {
 		panic("fakeMsg.Set: unknown field")
 	}
-	if fd.Kind() == protoreflect.BytesKind {
+	switch fd.Kind() {
+	case protoreflect.BytesKind:
 		m.fvals[i] = string(v.Bytes())
-	} else {
+	case protoreflect.BoolKind:
+		m.fnum[i] = 0
+		if v.Bool() {
+			m.fnum[i] = 1
+		}
+	case protoreflect.Int32Kind, protoreflect.Sint32Kind, protoreflect.Sfixed32Kind,
+		protoreflect.Int64Kind, protoreflect.Sint64Kind, protoreflect.Sfixed64Kind:
+		m.fnum[i] = uint64(v.Int())
+	case protoreflect.Uint32Kind, protoreflect.Fixed32Kind, protoreflect.Uint64Kind, protoreflect.Fixed64Kind:
+		m.fnum[i] = v.Uint()
+	case protoreflect.EnumKind:
+		m.fnum[i] = uint64(int64(v.Enum()))
+	default:
 		m.fvals[i] = v.String()
 	}
 	m.fset[i] = true
